@@ -684,7 +684,14 @@ pub fn print_module(mod_name: &str, prog: &Program, opts: &PrintOpts, ast_json: 
       writeln!(s, "      }}").unwrap();
       writeln!(s, "   }}").unwrap();
    }
-   let struct_sig = "pub struct P;";
+   // generic signature: the program type gets a type parameter (with the bounds relations need) that one extra pair of
+   // relations uses; the harness works with the instance at u8 under the usual name
+   let generic = opts.generic && !opts.kind.is_run();
+   let struct_sig = if generic {
+      "pub struct PG<TG> where TG: Clone + ::std::cmp::Eq + ::std::hash::Hash + Sync + Send;"
+   } else {
+      "pub struct P;"
+   };
    let body_text = {
       let mut b = String::new();
       for it in &before {
@@ -696,6 +703,11 @@ pub fn print_module(mod_name: &str, prog: &Program, opts: &PrintOpts, ast_json: 
       for it in &after {
          writeln!(b, "      {it}").unwrap();
       }
+      if generic {
+         writeln!(b, "      relation zgen(TG);").unwrap();
+         writeln!(b, "      relation zgen2(TG, TG);").unwrap();
+         writeln!(b, "      zgen2(x, y) <-- zgen(x), zgen(y);").unwrap();
+      }
       b
    };
    let rels = field_rels(prog);
@@ -706,6 +718,9 @@ pub fn print_module(mod_name: &str, prog: &Program, opts: &PrintOpts, ast_json: 
       writeln!(s, "      {struct_sig}").unwrap();
       write!(s, "{body_text}").unwrap();
       writeln!(s, "   }}").unwrap();
+      if generic {
+         writeln!(s, "   pub type P = PG<u8>;").unwrap();
+      }
       if !opts.init_rels.is_empty() || !opts.redeclare_noinit.is_empty() {
          // deferred construction: the initialisers run inside `P::default()`, so the rows must be known by then
          writeln!(s, "   pub struct G {{ pub pending: ::vglue::Db, pub p: Option<P> }}").unwrap();
